@@ -184,7 +184,12 @@ func (d *MarchingCanvas) addFloat1Range(section *marchingSection, chunkPos, min,
 	}
 
 	index := d.chunkIndex_atomic(section, chunkPos)
+
+	// Other workers may be appending new blocks to float1Data right now, so
+	// the slice header has to be read under the same lock.
+	d.chunkMutex.Lock()
 	data := d.float1Data[index]
+	d.chunkMutex.Unlock()
 
 	for z := min.Z; z < max.Z; z++ {
 		for y := min.Y; y < max.Y; y++ {
